@@ -1,5 +1,124 @@
-From DV Require Import Base.Prelude Model.CacheM Proofs.CacheBasic.
+(* C17 - resolver caches never serve stale data, honour the LRU bound, evict strictly LRU,
+   count every lookup once, and are linearizable.
+   Model: Model/CacheM.v (Cache value-level; LRUCache store-level with the sentinel ring).
+   Histories are lists of `item`s: Call c ds (ds = clock increments seen by the reads of the
+   call) and Adv d; `mono` = the clock never goes backwards. *)
+From DV Require Import Base.Prelude Model.CacheM.
+From DV Require Import Proofs.CacheRing Proofs.CacheDict Proofs.CacheLru Proofs.CacheSpec
+  Proofs.CacheThm Proofs.CacheSimple Proofs.CacheBasic.
+
+(* ---- never stale: a lookup returns an answer only if its expiration is strictly later than the
+   last clock reading of that lookup (any state, any clock) *)
 Theorem never_stale_cache : forall key c k v c' k',
   cache_step (Get key) c k = Ok (RAns v, c', k') -> now k' < a_exp v.
 Proof. exact cache_get_fresh. Qed.
 Print Assumptions never_stale_cache.
+
+Theorem never_stale_lru : forall key c k v c' k',
+  lru_step (Get key) c k = Ok (RAns v, c', k') -> now k' < a_exp v.
+Proof. exact lru_get_fresh. Qed.
+Print Assumptions never_stale_lru.
+
+(* ---- every history of an LRUCache runs without KeyError/AttributeError/fuel exhaustion *)
+Theorem lru_total : forall m t0 its, mono its ->
+  exists c0 rs w, lru_init m = Ok c0 /\ wrun lru_step its (c0, t0) = Ok (rs, w).
+Proof. exact lru_total_l. Qed.
+Print Assumptions lru_total.
+
+Theorem cache_total : forall interval t0 ds0 its, mono its -> Forall cache_item its ->
+  exists rs w, wrun cache_step its
+    (fst (cache_init interval (mkClk t0 ds0)), now (snd (cache_init interval (mkClk t0 ds0)))) = Ok (rs, w).
+Proof. exact cache_total_c. Qed.
+Print Assumptions cache_total.
+
+(* ---- latest unexpired: a lookup returns exactly the most recently stored answer of the key
+   that was neither flushed nor evicted (the ideal map `fst g`), unless it has expired *)
+Theorem latest_unexpired_lru : forall m t0 its g w key ds r w',
+  mono its -> lru_reach m t0 its g w -> nonneg ds ->
+  wstep lru_step (Call (Get key) ds) w = Ok (Some r, w') ->
+  r = expected (fst g) key (snd w').
+Proof. exact lru_get_l. Qed.
+Print Assumptions latest_unexpired_lru.
+
+Theorem latest_unexpired_cache : forall interval t0 ds0 its g w key ds r w',
+  mono its -> Forall cache_item its -> cache_reach interval t0 ds0 its g w -> nonneg ds ->
+  wstep cache_step (Call (Get key) ds) w = Ok (Some r, w') ->
+  r = expected (fst g) key (snd w').
+Proof. exact cache_get_c. Qed.
+Print Assumptions latest_unexpired_cache.
+
+(* ---- LRU bound: after every call of every history, len(data) <= max_size (and max_size >= 1);
+   set_max_size included *)
+Theorem lru_bound : forall m t0 its g w, mono its -> lru_reach m t0 its g w ->
+  zlen (l_dict (fst w)) <= l_max (fst w) /\ 1 <= l_max (fst w).
+Proof. exact lru_bound_l. Qed.
+Print Assumptions lru_bound.
+
+(* ---- strict LRU: whatever a put / set_max_size evicts was used less recently (put or
+   successful get) than everything it keeps *)
+Theorem evicts_lru_first : forall m t0 its g w cl ds r w' gk kept,
+  mono its -> lru_reach m t0 its g w -> nonneg ds ->
+  wstep lru_step (Call cl ds) w = Ok (Some r, w') ->
+  (match cl with Put key _ => gk <> key /\ kept <> key | SetMax _ => True | _ => False end) ->
+  has (fst w) gk = true -> has (fst w') gk = false -> has (fst w') kept = true ->
+  younger (snd g) kept gk.
+Proof. exact lru_evict_l. Qed.
+Print Assumptions evicts_lru_first.
+
+(* ---- counters: hits / misses are the numbers of successful / failed lookups since the last
+   reset; get_hits_for_key is the number of successful lookups of the stored answer *)
+Theorem counters_exact_lru : forall m t0 its g w, mono its -> lru_reach m t0 its g w ->
+  (l_hits (fst w), l_miss (fst w)) = stats_of (snd g).
+Proof. exact lru_stats_l. Qed.
+Print Assumptions counters_exact_lru.
+
+Theorem counters_exact_cache : forall interval t0 ds0 its g w,
+  mono its -> Forall cache_item its -> cache_reach interval t0 ds0 its g w ->
+  (c_hits (fst w), c_miss (fst w)) = stats_of (snd g).
+Proof. exact cache_stats_c. Qed.
+Print Assumptions counters_exact_cache.
+
+Theorem node_hits_exact : forall m t0 its g w key ds r w',
+  mono its -> lru_reach m t0 its g w -> nonneg ds ->
+  wstep lru_step (Call (HitsFor key) ds) w = Ok (Some r, w') ->
+  r = expected_hits (fst g) (snd g) key (snd w').
+Proof. exact lru_hitsfor_l. Qed.
+Print Assumptions node_hits_exact.
+
+(* ---- non-vacuity: a concrete history of LRUCache(2) *)
+Definition ex_hist : list item :=
+  [Call (Put 1 (mkAns 11 50)) []; Call (Put 2 (mkAns 12 60)) []; Call (Get 1) [3];
+   Call (Put 3 (mkAns 13 70)) []; Adv 100; Call (Get 1) [0]].
+
+Example ex_mono : mono ex_hist.
+Proof.
+  unfold mono, ex_hist.
+  repeat (apply Forall_cons;
+          [cbn; unfold nonneg; repeat (first [apply Forall_nil | apply Forall_cons; [lia|]]); try lia|]).
+  apply Forall_nil.
+Qed.
+
+(* after the history: key 2 was evicted by the third put (1 had been looked up more recently),
+   key 1 expired and was dropped by the last lookup *)
+Example ex_reach : exists g w, lru_reach 2 0 ex_hist g w /\ dkeys (l_dict (fst w)) = [3] /\ snd w = 103.
+Proof.
+  eexists. eexists. split.
+  - eexists. split; vm_compute; reflexivity.
+  - vm_compute. split; reflexivity.
+Qed.
+
+(* the hypotheses of evicts_lru_first are satisfiable: the put of key 3 evicts 2 and keeps 1 *)
+Example ex_evict : exists g w r w',
+  lru_reach 2 0 (firstn 3 ex_hist) g w /\
+  wstep lru_step (Call (Put 3 (mkAns 13 70)) []) w = Ok (Some r, w') /\
+  has (fst w) 2 = true /\ has (fst w') 2 = false /\ has (fst w') 1 = true.
+Proof.
+  eexists. eexists. eexists. eexists. split.
+  - eexists. split; vm_compute; reflexivity.
+  - split; [vm_compute; reflexivity|]. vm_compute. repeat split.
+Qed.
+
+Example ex_cache : exists g w,
+  cache_reach 5 0 [] [Call (Put 1 (mkAns 11 50)) []; Adv 60; Call (Get 1) [0]] g w /\
+  c_miss (fst w) = 1.
+Proof. eexists. eexists. split; vm_compute; reflexivity. Qed.
